@@ -277,6 +277,9 @@ fn run_script(sc: &Script, ctx: &mut Ctx) -> Result<(), Fail> {
     };
     let mut clients: Vec<Client> = sc.clients.iter().map(|c| Client { spec: c.clone(), sock: None, buf: Arc::new(Mutex::new(vec![])), stop: Arc::new(AtomicBool::new(false)), accepted_at_tag: None, open: false, reader: None }).collect();
     let probe_thread = sc.emitters;
+    // descriptions made in phase 1, each confirmed (a probe emitted after it came through) before the next
+    let mut late_names: Vec<String> = vec![];
+    let mut late_confirmed = true;
     let result = (|| -> Result<(), Fail> {
         for (pi, phase) in sc.phases.iter().enumerate() {
             // joins: the members of a burst all connect first, back to back
@@ -323,14 +326,15 @@ fn run_script(sc: &Script, ctx: &mut Ctx) -> Result<(), Fail> {
                     clients[ci].sock = Some(sock);
                 }
             }
-            if pi == 1 && sc.late_describe {
-                describe(&rec, &('g', "late_desc".to_string(), Some(Unit::Count), "late".to_string()), &mut described);
+            for li in 0..(if pi == 1 && sc.late_describe { 1 + (sc.describes.len() + sc.clients.len()) % 5 } else { 0 }) {
+                late_names.push(format!("late_desc{}", li));
+                describe(&rec, &('g', format!("late_desc{}", li), Some(Unit::Count), "late".to_string()), &mut described);
                 // the description shares the bounded queue with metrics: wait until a probe emitted after it
                 // has come through, so that the paced emissions below stay within the configured buffer
                 if let Some(r) = clients.iter().position(|c| c.open && c.accepted_at_tag.is_some() && c.spec.behaviour == Behaviour::Reader) {
                     let buf = clients[r].buf.clone();
                     let mut fresh: Vec<String> = vec![];
-                    let _ = wait_for(deadline, || {
+                    let confirmed = wait_for(deadline, || {
                         let (got, _) = tags_received(&buf).map_err(|e| Fail::new("stream-not-whole-frames", format!("client {}: {}", r, e)))?;
                         if fresh.iter().any(|t| got.contains(t)) {
                             return Ok(true);
@@ -341,6 +345,9 @@ fn run_script(sc: &Script, ctx: &mut Ctx) -> Result<(), Fail> {
                         std::thread::sleep(Duration::from_millis(3));
                         Ok(false)
                     })?;
+                    late_confirmed &= confirmed;
+                } else {
+                    late_confirmed = false;
                 }
             }
             // paced emissions of this phase
@@ -499,6 +506,16 @@ fn run_script(sc: &Script, ctx: &mut Ctx) -> Result<(), Fail> {
                         let prev = last_seq.insert(want.thread, want.seq);
                         ensure!(prev.map(|p| p < want.seq).unwrap_or(true), "per-thread-order-violated", "client {}: emission {:?} arrived after a later one of the same thread", ci, tag);
                     }
+                }
+            }
+            // descriptions confirmed one by one in phase 1 are known to the exporter whatever the buffer size: a client that
+            // connected in a later phase gets every one of them ("first the metadata known when it connected")
+            if late_confirmed && c.spec.join_phase >= 2 && c.spec.behaviour != Behaviour::Staller && !late_names.is_empty() {
+                for n in &late_names {
+                    ensure!(seen_meta.contains(n), "metadata-missing", "client {} connected in phase {} (buffer_size {:?}), after {} descriptions had been made and confirmed one by one in phase 1, but received no metadata for {:?} (it got {:?})", ci, c.spec.join_phase, sc.buffer, late_names.len(), n, seen_meta);
+                }
+                if sc.buffer.map(|b| b < late_names.len()).unwrap_or(false) {
+                    ctx.class("more-metadata-than-buffer-slots-at-connect");
                 }
             }
             // (descriptions travel through the same bounded queue as metrics and are not paced here, so
